@@ -323,7 +323,9 @@ fn env_gen(m: &HashMap<String, String>) {
         let h = EnvHeader { id: format!("{}{}-{}-{}", kind, profile, seed, hi), profile: profile.clone(), kind: kind.clone(),
             seed: env_seed, t0, ticks: tks.clone(), step, trading, levels: l };
         // a wide window now and then, so that all ten published levels (and the level scan's far end) hold different amounts
-        let np = { let u = rng.gen::<f64>(); if u < 0.12 { 12 } else if u < 0.4 { 6 } else { 3 } };
+        // (with ten or more published levels: often a window twice as wide as the level range, so that the far levels - 8, 9 -
+        // of both sides hold volume)
+        let np = { let u = rng.gen::<f64>(); if l >= 10 && u < 0.3 { 24 } else if l >= 10 && u < 0.5 { 12 } else if u < 0.12 { 12 } else if u < 0.4 { 6 } else { 3 } };
         let base = rng.gen_range(1..20);
         let vols = if profile == "unusual" { vec![0, 0, 1, 2, 3, 5] }
                    else if (profile == "py" || profile == "npy") && rng.gen::<f64>() < 0.3 { vec![0, 0, 1, 2, 5] }
